@@ -86,3 +86,87 @@ def install_string_contracts() -> Monitor:
     patch_everywhere(_utils.value_to_token, vt, "value_to_token")
     _installed["string"] = mon
     return mon
+
+
+def lcs_len(a, b):
+    n, m = len(a), len(b)
+    dp = [[0] * (m + 1) for _ in range(n + 1)]
+    for i in range(n):
+        for j in range(m):
+            dp[i + 1][j + 1] = dp[i][j] + 1 if a[i] == b[j] else max(dp[i][j + 1], dp[i + 1][j])
+    return dp[n][m]
+
+
+def check_alignment(seq_a, seq_b, script):
+    """None if `script` (over m/i/d) is a valid, match-maximal alignment of seq_a -> seq_b, else a reason."""
+    ia = ib = matches = 0
+    for c in script:
+        if c == "m":
+            if ia >= len(seq_a) or ib >= len(seq_b):
+                return "m beyond the end"
+            if not (seq_a[ia] == seq_b[ib]):
+                return f"m pairs unequal elements at {ia}/{ib}"
+            ia += 1
+            ib += 1
+            matches += 1
+        elif c == "d":
+            ia += 1
+        elif c == "i":
+            ib += 1
+        else:
+            return f"unknown op {c!r}"
+    if ia != len(seq_a) or ib != len(seq_b):
+        return f"script consumes {ia}/{ib} of {len(seq_a)}/{len(seq_b)}"
+    best = lcs_len(seq_a, seq_b)
+    if matches != best:
+        return f"{matches} matches but the longest common subsequence has {best}"
+    # common prefix / suffix must be matched
+    p = 0
+    while p < min(len(seq_a), len(seq_b)) and seq_a[p] == seq_b[p]:
+        p += 1
+    if not script.startswith("m" * p):
+        return f"equal common prefix of length {p} is not matched verbatim"
+    return None
+
+
+def install_align_contracts() -> Monitor:
+    if "align" in _installed:
+        return _installed["align"]
+    import inline_snapshot._adapter.sequence_adapter  # noqa: F401
+    from inline_snapshot import _align
+
+    mon = Monitor()
+
+    def alignment_is_valid_and_maximal(seq_a, seq_b, result):
+        mon.hit("align")
+        try:
+            why = check_alignment(list(seq_a), list(seq_b), result)
+        except Exception as e:  # comparing elements may raise for exotic values
+            mon.hit("align_uncheckable")
+            return True
+        if why:
+            mon.fail("align", seq_a=seq_a, seq_b=seq_b, script=result, why=why)
+        return True
+
+    def add_x_only_merges_equal_runs(track, result):
+        mon.hit("add_x")
+        # expand x back: every x stands for one d + one i
+        if track.count("m") != result.count("m"):
+            mon.fail("add_x", track=track, result=result, why="m count changed")
+        if track.count("d") != result.count("d") + result.count("x") or track.count("i") != result.count("i") + result.count("x"):
+            mon.fail("add_x", track=track, result=result, why="d/i not conserved")
+        # per segment between matches: deletions and insertions are conserved (x = one d + one i)
+        tsegs, rsegs = track.split("m"), result.split("m")
+        if len(tsegs) == len(rsegs):
+            for t, r in zip(tsegs, rsegs):
+                if t.count("d") != r.count("d") + r.count("x") or t.count("i") != r.count("i") + r.count("x"):
+                    mon.fail("add_x", track=track, result=result, why="d/i not conserved between two matches")
+                    break
+        return True
+
+    al = icontract.ensure(alignment_is_valid_and_maximal, error=AssertionError)(_align.align)
+    patch_everywhere(_align.align, al, "align")
+    ax = icontract.ensure(add_x_only_merges_equal_runs, error=AssertionError)(_align.add_x)
+    patch_everywhere(_align.add_x, ax, "add_x")
+    _installed["align"] = mon
+    return mon
